@@ -321,7 +321,9 @@ class TCPPacketGenerator(Device, OutMixIn):
         else:
             # fast recovery
             if self.dupack > 0:
-                self.congestion_control.dupack_over()
+                if self.dupack >= 3:
+                    # leaving fast recovery: deflate the window
+                    self.congestion_control.dupack_over()
                 self.dupack = 0
 
         if self.dupack == 3:
